@@ -54,7 +54,7 @@ func checkC01(c *Ctx) {
 	// C01.6 structural preconditions of cross-replica agreement, decided under their own properties and re-listed here:
 	// what an honest replica votes for (C03.5/C03.6), the vote/lock/commit decision tables (C04.1), the QC view binding (C02.3)
 	c.importFrom(checkC03, "C01.6", "C03.1", "C03.2", "C03.3", "C03.4", "C03.5", "C03.6", "C03.7")
-	c.importFrom(checkC04, "C01.6", "C04.1")
+	c.importFrom(checkC04, "C01.6", "C04.1", "C04.7")
 	c.importFrom(checkC02, "C01.6", "C02.1", "C02.3", "C02.7")
 
 	if commitInner == nil || commit == nil || tryCommit == nil {
